@@ -41,9 +41,19 @@ macro_rules! ev_text {
     };
 }
 
-//@ harness: c01_text_ws_unknown_small
+//@ harness: c01_text_unknown_first
 //@ tier: quick
 //@ timeout: 1200
+//@ mem: 12
+//@ unwindset: read_sig=66; read_id=34; read_pubkey=34; read_hex=66; memcmp.0=34; memchr=12; read_u64=24; read_kind=10; burn_string=30; eat_whitespace=6; burn_number=12; json_unescape=64; check_event=4; parse_json_event=14
+//@ encodes: Event::from_json, parse_json_event (deferred content), burn_key_and_value_after_quote, burn_string, burn_value, burn_number, eat_whitespace
+//@ bounds: compact order-1 text preceded by one unknown string member whose value ends in an escaped backslash ("zz":"q\\"); arbitrary prior contents of the output buffer. Accepted; consumed = length; every accessor equals the denoted part
+//@ outside: the text itself is constant (see the header of this file)
+ev_text!(c01_text_unknown_first, L5, L5.len());
+
+//@ harness: c01_text_ws_unknown_small
+//@ tier: thorough
+//@ timeout: 3000
 //@ mem: 12
 //@ unwindset: read_sig=66; read_id=34; read_pubkey=34; read_hex=66; memcmp.0=34; memchr=12; read_u64=24; read_kind=10; burn_string=30; eat_whitespace=6; burn_number=12; json_unescape=64; check_event=4; parse_json_event=14
 //@ encodes: Event::from_json, parse_json_event (deferred content), burn_key_and_value_after_quote, burn_string, burn_value, burn_number, eat_whitespace
